@@ -7,7 +7,7 @@ use proc_macro2::{Ident, TokenStream};
 use quote::{format_ident, quote};
 
 use super::common::{
-    generate_derives, generate_enum_type, generate_field_type, generate_rule_parse_function,
+    check_ident, check_path, generate_derives, generate_enum_type, generate_field_type, generate_rule_parse_function,
     safe_ident, Arity, Codegen, CodegenRule, CodegenSettings, FieldDescriptor, PublicType,
     RecordPosition,
 };
@@ -25,7 +25,16 @@ impl CodegenRule for Rule {
             ..settings.clone()
         };
 
+        check_ident(&self.name, "rule name")?;
         let fields = self.definition.get_fields(grammar)?;
+        for field in &fields {
+            if field.name != "_override" {
+                check_ident(field.name, "field name")?;
+            }
+            for field_type in field.types.keys() {
+                check_ident(field_type, "rule name")?;
+            }
+        }
 
         self.check_flags(&flags, &settings)?;
 
@@ -322,6 +331,9 @@ impl Rule {
                 None
             }
         });
+        for path in check_name_parts.clone() {
+            check_path(path, "check function name")?;
+        }
         let check_idents = check_name_parts.clone().map(|ps| {
             let part_idents = ps.iter().map(safe_ident);
             quote!(#(#part_idents)::*)
